@@ -683,6 +683,10 @@ def run_library(c0, d0, h_us, n, mans, sp=None):
         if abs(off) > 2.5e-6 + (1e-9 * k * h_us / 1e6 if d0.scale.name == "TDB" else 0.0):
             raise Violation("grid-date", f"point {k} is dated {off:+.3g} s off the integration grid")
         out.append(y)
+    if len(out) == n + 2 and d0.scale.name in ("UT1", "TDB"):
+        # an epoch labelled UT1 / TDB is kept to the microsecond: the stop, converted on its own, may fall 1 us after the
+        # last grid point, and KeplerNum then yields one more integration point (C08's listed finding keplernum-beyond-stop)
+        out = out[:-1]
     if len(out) != n + 1:
         raise Violation("grid-length", f"{len(out)} points for {n} steps")
     return out
@@ -844,10 +848,15 @@ def check_impulse(case):
         # several impulses in one cluster: each changes the axes seen by the next
         pair = sum(a * b for x, a in enumerate(mags) for b in mags[x + 1:]) * 2 / min(vperp(ys[j]) for j in cl)
         got = tot[3:]
+        # da -> dv: the speed entering the formula changes along the step; and dv goes as 1 / a^2, with
+        # a = 1 / (2/r - v^2/mu) taken from the integrator's own state: on a near-parabolic orbit (|a| >> r) the step's
+        # energy error moves a by |a| / r times as much, relatively
+        e_m = tb.cart2elements(ys[min(cl)], mu)
+        kep_cond = max(1.0, abs(e_m["a"]) / (10 * float(np.linalg.norm(ys[min(cl)][:3]))))
         if len(ids) == 1:
             rel = 2 * theta**2 + 1e-9
             if case["mans"][ids[0]]["kind"] == "kep":
-                rel += 2 * theta  # the speed entering da -> dv changes along the step
+                rel += 2 * theta * kep_cond
             d = abs(float(np.linalg.norm(got)) - total)
             if case["mans"][ids[0]]["kind"] == "kep":
                 kepfrac = max(kepfrac, d / (total * rel + floor))
@@ -860,7 +869,7 @@ def check_impulse(case):
         d = float(np.linalg.norm(got - want))
         tol = total * 1.5 * theta + pair + floor
         if any(case["mans"][i]["kind"] == "kep" for i in ids):
-            tol += total * 2 * theta
+            tol += total * 2 * theta * kep_cond
         dirfrac = max(dirfrac, d / tol)
         if d > tol:
             raise Violation("impulse-delivery",
